@@ -248,7 +248,7 @@ def observe (c : Case) (v : V) (l fl : Option (List Char)) (ds : List V) (free :
             match s with
             | .json _ => .error .type
             | s => .ok (FilterVal.lit s, FVal.lit (litOfScalar s))
-    let maskFlt := ty = .json ∨ free ∨ (ty = .float ∧ (isD ∨ c.fpos = "lit"))
+    let maskFlt := ty = .json ∨ free ∨ ty = .float
     let decoys : List (Nat × Scalar) :=
       (ds.zipIdx).filterMap fun (dv, k) =>
         match admitParam ty fnul (toScalar ty dv) with
@@ -569,10 +569,11 @@ def step (c : Case5) (kind : String) (toks : List String) : Case5 × String :=
   | "qf" =>
     match nat? toks "n", kv? toks "name", kv? toks "sel", nat? toks "f", (kv? toks "op").bind parseCmp,
           (kv? toks "v").bind parseVal with
-    | some n, some _, some sel, some f, some op, some v =>
+    | some n, some name, some sel, some f, some op, some v =>
       match getNode c n with
       | some nd =>
-        let flt : Discret.Query.Filter := { onAlias := sel = "1", fld := f, op, value := v, isParam := (kv? toks "var") = some "1" }
+        let flt : Discret.Query.Filter := { onAlias := sel = "1", fld := f, op, value := v, isParam := (kv? toks "var") = some "1",
+                                            name, onRef := (kv? toks "ref") = some "1" }
         (setNode c n { nd with filters := nd.filters ++ [flt] }, "ok")
       | none => (c, "bad-op")
     | _, _, _, _, _, _ => (c, "bad-op")
